@@ -59,6 +59,7 @@ MODELS = {
     "sphere": "sphere", "cylinder": "cylinder", "core_multi_shell": "core_multi_shell",
     "hardsphere": "hardsphere", "sphere@hardsphere": "sphere@hardsphere",
     "sphere@hayter_msa": "sphere@hayter_msa",
+    "cylinder@hardsphere": "cylinder@hardsphere",       # a form factor with seven effective-radius modes
     "hayter_msa": "hayter_msa",
     "sphere+cylinder": "sphere+cylinder", "sphere*cylinder": "sphere*cylinder",
     "broad_peak": "broad_peak", "_spherepy": "_spherepy",
@@ -111,6 +112,12 @@ PARS = {
         "pd": {"radius_pd": 0.1, "radius_pd_n": 6, "volfraction": 0.25},
         "beta": {"structure_factor_mode": 1, "radius_pd": 0.1, "radius_pd_n": 6},
         "reff": {"radius_effective_mode": 1, "radius_pd": 0.2, "radius_pd_n": 5, "radius": 35.0},
+    },
+    "cylinder@hardsphere": {
+        "def": {},
+        "pd": {"radius_pd": 0.1, "radius_pd_n": 4, "length_pd": 0.2, "length_pd_n": 5, "volfraction": 0.25},
+        "m3": {"radius_effective_mode": 3, "radius": 25.0, "length": 300.0},
+        "beta": {"structure_factor_mode": 1, "radius_effective_mode": 2, "length_pd": 0.1, "length_pd_n": 4},
     },
     "hayter_msa": {
         "def": {},
@@ -177,6 +184,31 @@ PARS = {
         "empty": {"r": -10.0, "r_pd": 0.1, "r_pd_n": 5},
     },
 }
+# number of effective-radius modes of the form factor, for models where there is a choice
+ER_MODES = {"cylinder": 7, "cylinder@hardsphere": 7, "pyplug": 2, "pyplug@hardsphere": 2, "core_multi_shell": 2}
+PRODUCTS = {"sphere@hardsphere", "sphere@hayter_msa", "cylinder@hardsphere", "pyplug@hardsphere"}
+
+
+def _add_control_variants():
+    """Siblings that differ from a parameter set in one *control* parameter only
+    (which effective radius the form factor reports, whether S is applied with
+    the beta correction): state keyed on everything but the control value is
+    then caught, on a live kernel, by the ordered pairs."""
+    for model, sets in PARS.items():
+        for key, pars in list(sets.items()):
+            if key in ("bad", "toomany", "empty", "pd140") or "#" in key:
+                continue
+            n = ER_MODES.get(model, 0)
+            if n >= 2:
+                cur = int(pars.get("radius_effective_mode", 1))
+                nxt = cur % n + 1 if cur >= 1 else 1
+                sets[key + "#m"] = dict(pars, radius_effective_mode=nxt)
+                if n >= 3:
+                    sets[key + "#M"] = dict(pars, radius_effective_mode=nxt % n + 1)
+            if model in PRODUCTS:
+                sets[key + "#s"] = dict(pars, structure_factor_mode=1 - int(pars.get("structure_factor_mode", 0)))
+
+
 def _add_variants():
     """For every dispersed parameter set add siblings with the *same mesh
     shape* that differ in exactly one aspect (width, distribution type,
@@ -201,6 +233,7 @@ def _add_variants():
 
 
 _add_variants()
+_add_control_variants()
 CUTOFFS = [0.0, 0.0, 1e-5, 1e-3]
 DATA_KINDS = ["perfect", "pinhole", "slit", "2d", "2d_xres", "sesans", "sesans_tight"]
 SV_MODELS = ["sphere", "cylinder", "core_multi_shell", "sphere@hardsphere", "sphere@hayter_msa", "hardsphere", "hayter_msa",
@@ -888,6 +921,8 @@ def run_history(cfg, keep_events=False):
                     pp, cp = prev.get("pars"), req.get("pars")
                     if pp and cp and pp.split("#")[0] == cp.split("#")[0] and pp != cp:
                         probe("same_mesh_shape_one_aspect_changed")
+                        if all(x.split("#")[1:] in ([], ["m"], ["M"], ["s"]) for x in (pp, cp)):
+                            probe("only_control_parameter_changed")
                     if pp and cp and ("pd" in pp or "empty" in pp) and cp in ("def", "big", "thin"):
                         probe("mono_after_poly_same_object")
                     if pp and cp and (pp == "mag") != (cp == "mag"):
@@ -998,7 +1033,7 @@ def gen_history(w, n_ops):
         pars = w.choice(keys)
         fn = "Fq" if (model in FQ_MODELS and w.random() < 0.3) else "Iq"
         if model in ("sphere@hardsphere", "sphere@hayter_msa", "sphere+cylinder", "sphere*cylinder",
-                     "pyplug@hardsphere") and w.random() < 0.5:
+                     "pyplug@hardsphere", "cylinder@hardsphere") and w.random() < 0.5:
             fn = "IqR"
         ops.append({"op": "call", "k": k["id"], "model": model, "fn": fn, "pars": pars,
                     "cutoff": w.choice(CUTOFFS), "mono": w.random() < 0.1})
@@ -1136,11 +1171,12 @@ def sweep_configs(tier):
     (result-buffer and scratch-vector leaks are pairwise phenomena)."""
     out = []
     models = sorted(m for m in MODELS if m not in GENERIC) if tier != "quick" else \
-        ["sphere", "cylinder", "sphere@hardsphere", "sphere@hayter_msa", "_spherepy", "pyplug", "pyscalar", "allpd"]
+        ["sphere", "cylinder", "sphere@hardsphere", "sphere@hayter_msa", "cylinder@hardsphere", "pyplug@hardsphere",
+         "_spherepy", "pyplug", "pyscalar", "allpd"]
     for model in models:
         keys = [k for k in sorted(PARS[model]) if k.split("#")[0] not in ("pd4", "bad", "toomany")
                 and not k.endswith(("#t", "#n"))]
-        for fn in (("Iq", "Fq") if model in FQ_MODELS else ("Iq",)):
+        for fn in (("Iq", "Fq") if model in FQ_MODELS else ("IqR",) if model in PRODUCTS else ("Iq",)):
             ops = [{"op": "load", "id": "m1", "model": model, "dtype": "double"},
                    {"op": "make_kernel", "id": "k1", "m": "m1", "q": "q3", "model": model}]
             for a in keys:
@@ -1281,7 +1317,8 @@ EXPECTED_PROBES = ["same_kernel_other_pars", "mono_after_poly_same_object", "mag
                    "eval_after_failed_eval", "py_kernel_second_call", "empty_mesh_after_nonempty",
                    "clone_after_setParam", "two_models_share_process", "callFq_with_mode_key",
                    "identical_request_repeated", "fresh_process_run", "array_distribution_set",
-                   "same_mesh_shape_one_aspect_changed", "threads_lazy_build_contended",
+                   "same_mesh_shape_one_aspect_changed", "only_control_parameter_changed",
+                   "threads_lazy_build_contended",
                    "threads_lock_contended"]
 
 
